@@ -222,6 +222,7 @@ def alive(c):
 
 
 class Machine:
+    trivial_default = False
     """One path of one entry point.  `trail` holds the decisions already taken on this path (restart-based case splitting)."""
 
     def __init__(self, prog, f, E, trail):
@@ -235,6 +236,7 @@ class Machine:
         self.cur = None                    # node being interpreted (for the finding site)
         self.frames = []                   # functions being inlined
         self.nsym = 0
+        self.memalg = False
         self.words = {}                    # two-storage members: the `_size` words of this and of the other vector
         from .. import gen
         self.trivial = prog.meta.get('elem') in gen.TRIV_COPY
@@ -449,13 +451,32 @@ class Interp:
             return self.call(n, fr)
         if k == 'construct':
             vals = [self.ev(a, fr) for a in n.get('args', []) or []]
+            if 'std::pair' in (n.get('cls') or n.get('t') or '') and len(vals) == 2:
+                return ('pair', vals[0], vals[1])
             if self.is_elem_t(n.get('t')) or self.is_elem_t(n.get('cls')):
                 if len(vals) == 1 and vals[0][0] == 'xelem':
                     self.moved_from(vals[0])
+                if not vals:
+                    return ('vinitval',)
                 return VAL
-            if len(vals) == 1 and vals[0][0] in ('src', 'ptr', 'int'):
+            if len(vals) == 1 and vals[0][0] in ('src', 'ptr', 'int', 'mptr', 'pair'):
                 return vals[0]
             return TOP
+        if k == 'new' and n.get('placement'):
+            t = self.ev(n['placement'][0], fr)
+            if t[0] != 'ptr':
+                raise Unknown('placement new at a pointer the interpreter does not follow')
+            if self.probe is not None:
+                self.probe.append(('construct', t[1], ('vinitval',)))
+            else:
+                m.fill(t[1], lconst(1), VINIT, False, 'placement new at %s' % fmt(t[1]))
+            return t
+        if k == 'valueinit':
+            return ('vinitval',)
+        if k == 'mem' and n.get('name') in ('first', 'second') and not n.get('field_of_this'):
+            b = self.ev(n.get('base'), fr)
+            if b[0] == 'pair':
+                return b[1] if n['name'] == 'first' else b[2]
         if k == 'mem':
             w = self.word(n, fr)
             if w is not None:
@@ -567,6 +588,8 @@ class Interp:
             return new(ladd(slot, src[1], -1))
         if src[0] in ('val', 'tmpelem', 'xtmpelem'):
             return VAL
+        if src[0] == 'vinitval':
+            return VINIT
         return None
 
     def elem_assign(self, slot, src):
@@ -595,6 +618,8 @@ class Interp:
         c = VAL if src is None else self.content_of(slot, src)
         if c is None:
             c = VAL
+        if src is None and getattr(m, 'memalg', False):
+            c = VINIT                                  # construct_at(p) in the memory algorithms: value-initialisation
         m.fill(slot, one, c, False, 'construct_at')
 
     def unop(self, n, fr):
@@ -689,7 +714,7 @@ class Interp:
 
     # ------------------------------------------------------------ calls
     def rng(self, a, b):
-        if a[0] == b[0] and a[0] in ('ptr', 'src'):
+        if a[0] == b[0] and a[0] in ('ptr', 'src', 'mptr'):
             return ladd(b[1], a[1], -1)
         raise Unknown('range whose ends the interpreter does not follow')
 
@@ -883,6 +908,29 @@ class Interp:
     def primitive(self, n, nm, sn, args, fr):
         m = self.m
         one = lconst(1)
+        if sn in ('memcpy', 'memmove', '__builtin_memcpy', '__builtin_memmove') and len(args) == 3:
+            t, sv = self.ev(args[0], fr), self.ev(args[1], fr)
+            sz = A.strip(args[2])
+            cnt = None
+            if isinstance(sz, dict) and sz.get('k') == 'sizeof':
+                cnt = lconst(1)
+            elif isinstance(sz, dict) and sz.get('k') == 'bin' and sz.get('op') == '*':
+                l, r = A.strip(sz.get('lhs')), A.strip(sz.get('rhs'))
+                other = r if (isinstance(l, dict) and l.get('k') == 'sizeof') else (l if (isinstance(r, dict) and r.get('k') == 'sizeof') else None)
+                if other is not None:
+                    v = self.ev(other, fr)
+                    cnt = v[1] if v[0] == 'int' else None
+            if t[0] != 'ptr' or sv[0] != 'ptr' or cnt is None:
+                if t[0] == 'ptr' or sv[0] == 'ptr':
+                    raise Unknown('%s the interpreter does not follow' % sn)
+                return TOP
+            if self.probe is not None:
+                if cnt != lconst(1):
+                    raise Unknown('%s of several elements inside a loop' % sn)
+                self.probe.append(('construct', t[1], ('elem', sv[1])))
+                return t
+            m.transfer(sv[1], cnt, t[1], 'ucopy', '%s(%s <- %s, %s elements)' % (sn, fmt(t[1]), fmt(sv[1]), fmt(cnt)))
+            return t
         std_or_amc = nm.startswith(('std::', 'amc::')) and not nm.startswith('amc::vec::')
         if not std_or_amc:
             return NotImplemented
@@ -900,6 +948,16 @@ class Interp:
                 kk = self.key(args[0])
                 return ('addr', kk) if kk else TOP
             return v
+        if sn == 'make_move_iterator' and len(args) == 1:
+            v = self.ev(args[0], fr)
+            return ('mptr', v[1]) if v[0] == 'ptr' else v
+        if sn == 'advance' and len(args) == 2:
+            kk = self.key(args[0])
+            a, d = self.ev(args[0], fr), self.ev(args[1], fr)
+            if kk is None or a[0] not in ('ptr', 'src') or d[0] != 'int':
+                raise Unknown('std::advance the interpreter does not follow')
+            fr.env[kk] = (a[0], ladd(a[1], d[1]))
+            return TOP
         if sn == 'distance' and len(args) == 2:
             a, b = self.ev(args[0], fr), self.ev(args[1], fr)
             return ('int', self.rng(a, b))
@@ -934,6 +992,9 @@ class Interp:
             else:
                 s, cnt = v[0], self.rng(v[0], v[1])
                 t = v[2]
+            if s[0] == 'mptr':
+                s = ('ptr', s[1])
+                mode = {'ucopy': 'umove', 'acopy': 'amove'}.get(mode, mode)
             if t[0] != 'ptr':
                 if s[0] == 'ptr':
                     raise Unknown('%s out of the storage' % sn)
@@ -950,20 +1011,22 @@ class Interp:
                 raise Unknown('%s from a source the interpreter does not follow' % sn)
             if shape == 'b':
                 return ('ptr', t[1])
+            if sn in ('uninitialized_move_n', 'uninitialized_relocate_n') and s[0] == 'ptr':
+                return ('pair', ('ptr', ladd(s[1], cnt)), ('ptr', ladd(t[1], cnt)))
             return ('ptr', ladd(t[1], cnt))
         if sn in ('fill_n', 'uninitialized_fill_n') and len(args) == 3:
             self.no_probe(sn)
             t, cnt, v = [self.ev(a, fr) for a in args]
             if t[0] != 'ptr' or cnt[0] != 'int':
                 raise Unknown('%s on a range the interpreter does not follow' % sn)
-            m.fill(t[1], cnt[1], VAL, sn == 'fill_n', '%s(%s, %s)' % (sn, fmt(t[1]), fmt(cnt[1])))
+            m.fill(t[1], cnt[1], VINIT if v == ('vinitval',) else VAL, sn == 'fill_n', '%s(%s, %s)' % (sn, fmt(t[1]), fmt(cnt[1])))
             return ('ptr', ladd(t[1], cnt[1]))
         if sn in ('fill', 'uninitialized_fill') and len(args) == 3:
             self.no_probe(sn)
             a, b, v = [self.ev(x, fr) for x in args]
             if a[0] != 'ptr':
                 raise Unknown('%s on a range the interpreter does not follow' % sn)
-            m.fill(a[1], self.rng(a, b), VAL, sn == 'fill', '%s(%s, %s)' % (sn, fmt(a[1]), fmt(b[1])))
+            m.fill(a[1], self.rng(a, b), VINIT if v == ('vinitval',) else VAL, sn == 'fill', '%s(%s, %s)' % (sn, fmt(a[1]), fmt(b[1])))
             return TOP
         if sn in ('uninitialized_value_construct_n', 'uninitialized_default_construct_n') and len(args) == 2:
             self.no_probe(sn)
@@ -1217,6 +1280,8 @@ class Interp:
                     if e < 0:
                         raise Unknown('loop reading the source range backwards')
                     m.fill(lo, iters, new(ladd(x[1], src[1], -1)), assign, what)
+                elif (src is not None and src[0] == 'vinitval') or (src is None and getattr(m, 'memalg', False)):
+                    m.fill(lo, iters, VINIT, assign, what)
                 else:
                     m.fill(lo, iters, VAL, assign, what)
 
@@ -1608,5 +1673,158 @@ def seg_layout(progs):
                 rr.add(Finding('SEG-LAYOUT', key, prog.site(f, node) if isinstance(node, dict) and node.get('l') and not where else f['loc'],
                                '%s (%s)%s: %s - on the path where %s.  %s: %s' % (short(f['name']), kind, (' in ' + ' > '.join(where)) if where else '', msg,
                                                                               ', '.join(cons) or 'no condition', 'contract' if kind.startswith(('h_', 'm_')) else 'std::vector', SPEC_TEXT[kind]),
+                               where=f['pname'], unit=prog.uname))
+    return rr
+
+
+# ---------------------------------------------------------------- MEMALG-LAYOUT (C15)
+
+MEMALG = {
+    # name: (kind, roles of the leading parameters)
+    'uninitialized_copy': ('a_copy', ['sbeg', 'send', 'dst']), 'uninitialized_copy_n': ('a_copy', ['sbeg', 'scnt', 'dst']),
+    'uninitialized_move': ('a_move', ['sbeg', 'send', 'dst']), 'uninitialized_move_n': ('a_move_n', ['sbeg', 'scnt', 'dst']),
+    'uninitialized_relocate': ('a_reloc', ['sbeg', 'send', 'dst']), 'uninitialized_relocate_n': ('a_reloc_n', ['sbeg', 'scnt', 'dst']),
+    'relocate_at': ('a_reloc_at', ['sbeg', 'dst']),
+    'destroy': ('a_destroy', ['dbeg', 'dend']), 'destroy_n': ('a_destroy_n', ['dbeg', 'dcnt']),
+    'uninitialized_value_construct': ('a_vinit', ['dbeg', 'dend']), 'uninitialized_value_construct_n': ('a_vinit_n', ['dbeg', 'dcnt']),
+    'uninitialized_default_construct': ('a_vinit', ['dbeg', 'dend']), 'uninitialized_default_construct_n': ('a_vinit_n', ['dbeg', 'dcnt']),
+}
+MEMALG_TEXT = {
+    'a_copy': 'the destination holds copies of the n source elements in order, the sources are untouched, dest + n is returned',
+    'a_move': 'the destination holds the n source elements in order (moved), dest + n is returned',
+    'a_move_n': 'the destination holds the n source elements in order (moved), (first + n, dest + n) is returned',
+    'a_reloc': 'the destination holds the n source elements in order, the sources are gone, dest + n is returned',
+    'a_reloc_n': 'the destination holds the n source elements in order, the sources are gone, (first + n, dest + n) is returned',
+    'a_reloc_at': 'the destination holds the element, the source is gone, dest is returned',
+    'a_destroy': 'exactly the n elements of the range are destroyed', 'a_destroy_n': 'exactly the n elements are destroyed, first + n is returned',
+    'a_vinit': 'exactly the n slots of the range hold new objects', 'a_vinit_n': 'exactly the n slots hold new objects, first + n is returned',
+}
+
+
+def memalg_explore(prog, f, E, kind, roles, reloc, limit=400):
+    CX, CY = {'CX': 1}, {'CY': 1}
+    stack, paths = [[]], 0
+    src_kinds = kind in ('a_copy', 'a_move', 'a_move_n', 'a_reloc', 'a_reloc_n', 'a_reloc_at')
+    while stack:
+        trail = stack.pop()
+        m = Machine(prog, f, E, trail)
+        m.memalg = True
+        m.size = {}
+        fr = Frame(f)
+        if src_kinds:
+            m.cons = [CY, ladd(ladd(Y_, CY, -1), lconst(-1))]
+            if kind == 'a_reloc_at':
+                m.cons += [ladd(CY, lconst(-1)), ladd(lconst(1), CY, -1)]
+            m.bounds, m.cont = [{}, dict(Y_), ladd(Y_, CY)], [RAW, old(), RAW]
+        elif kind in ('a_destroy', 'a_destroy_n'):
+            m.cons = [CX]
+            m.bounds, m.cont = [{}, dict(CX)], [old(), RAW]
+        else:
+            m.cons = [CX]
+            m.bounds, m.cont = [{}], [RAW]
+        for i, r in enumerate(roles):
+            if r == 'ignored':
+                continue
+            fr.env[('p', i)] = {'sbeg': ('ptr', dict(Y_)), 'send': ('ptr', ladd(Y_, CY)), 'scnt': ('int', dict(CY)), 'dst': ('ptr', {}),
+                                'dbeg': ('ptr', {}), 'dend': ('ptr', dict(CX)), 'dcnt': ('int', dict(CX))}[r]
+        ip = Interp(m)
+        try:
+            res = TOP
+            try:
+                ip.run(f['body'], fr)
+            except _Ret as r_:
+                res = r_.v
+            except _Thrown:
+                raise Infeasible()
+
+            def want_seg(lo, hi, pred, text):
+                for a, b, got in m.pieces(lo, hi):
+                    if not pred(got):
+                        raise Violation('on return slots [%s, %s) hold %s; expected %s (Y = start of the source range)' % (fmt(a), fmt(b), cfmt(got), text), None)
+            if src_kinds:
+                want_seg({}, CY, lambda c: same_content(m, c, old(lneg(Y_))), 'the source elements in order')
+                want_seg(CY, Y_, lambda c: not alive(c) or m.trivial, 'raw memory')
+                if kind == 'a_copy':
+                    want_seg(Y_, ladd(Y_, CY), lambda c: same_content(m, c, old()), 'the untouched source elements')
+                elif kind in ('a_move', 'a_move_n'):
+                    want_seg(Y_, ladd(Y_, CY), lambda c: c[0] == 'mf' or same_content(m, c, old()), 'the (moved-from) source elements, still alive')
+                else:
+                    want_seg(Y_, ladd(Y_, CY), lambda c: not alive(c) or reloc, 'no object (relocated away)')
+                want_seg(ladd(Y_, CY), None, lambda c: not alive(c) or m.trivial, 'raw memory')
+            elif kind in ('a_destroy', 'a_destroy_n'):
+                want_seg({}, None, lambda c: not alive(c) or m.trivial, 'no object')
+            else:
+                want_seg({}, CX, lambda c: c == VINIT or Machine.trivial_default, 'new objects')
+                want_seg(CX, None, lambda c: not alive(c) or m.trivial, 'raw memory')
+            wret = {'a_copy': ('ptr', CY), 'a_move': ('ptr', CY), 'a_reloc': ('ptr', CY), 'a_reloc_at': ('ptr', {}),
+                    'a_move_n': ('pair', ('ptr', ladd(Y_, CY)), ('ptr', CY)), 'a_reloc_n': ('pair', ('ptr', ladd(Y_, CY)), ('ptr', CY)),
+                    'a_destroy_n': ('ptr', CX), 'a_vinit_n': ('ptr', CX)}.get(kind)
+
+            def same_val(a, b):
+                if a[0] != b[0]:
+                    return False
+                if a[0] == 'pair':
+                    return same_val(a[1], b[1]) and same_val(a[2], b[2])
+                return m.entails_eq(a[1], b[1])
+
+            def sh(v):
+                if v[0] == 'pair':
+                    return '(%s, %s)' % (sh(v[1]), sh(v[2]))
+                return fmt(v[1]) if len(v) > 1 and isinstance(v[1], dict) else 'a value the interpreter does not follow'
+            if wret is not None and not same_val(res, wret):
+                raise Violation('returns %s; the standard algorithm returns %s (positions: destination from 0, source from Y)' % (sh(res), sh(wret)), None)
+            paths += 1
+        except Split as sp:
+            for i in range(sp.k):
+                stack.append(trail + [i])
+        except Infeasible:
+            pass
+        except Violation as v:
+            return paths, (str(v), v.node, [short(x['name']) for x in m.frames], [fmt(c) + ' >= 0' for c in m.cons])
+        if paths + len(stack) > limit:
+            raise Unknown('too many paths')
+    return paths, None
+
+
+def memalg_layout(progs):
+    rr = RuleResult('MEMALG-LAYOUT', 'every amc:: memory algorithm that has its own body in the analysed standard (the pre-C++17 emulations; relocate in every standard), '
+                                     'instantiated with raw pointers, leaves on every normal path exactly what the standard algorithm leaves - which slots hold which source '
+                                     'element, what happened to the sources, nothing else alive - and returns the same position(s), for every count (array-segmentation '
+                                     'interpretation, implementation modes Default / MemMove / MemMoveInALoop inlined, memcpy / placement new / construct_at as transformers)')
+    from .. import gen
+    seen = set()
+    for prog in progs:
+        E = prog.meta.get('E')
+        if not E:
+            continue
+        for f in prog.amc_functions():
+            nm = f.get('name', '')
+            sn = short(nm)
+            if f.get('body') is None or nm != 'amc::' + sn or sn not in MEMALG:
+                continue
+            kind, roles = MEMALG[sn]
+            ps = f.get('params', [])
+            if len(ps) < len(roles):
+                continue
+            ptr_roles = [i for i, r in enumerate(roles) if r in ('sbeg', 'send', 'dst', 'dbeg', 'dend')]
+            if not all(ps[i]['t'].replace('const ', '').strip() == E + ' *' for i in ptr_roles):
+                continue
+            roles_full = roles + ['ignored'] * (len(ps) - len(roles))
+            key = f['key']
+            try:
+                # archetypes with a trivial default constructor get no object from default-initialisation: nothing to see there
+                Machine.trivial_default = prog.meta.get('elem') in gen.TRIV_COPY and 'default_construct' in sn
+                paths, bad = memalg_explore(prog, f, E, kind, roles_full, prog.meta.get('elem') in gen.RELOC)
+            except Unknown as e:
+                rr.broken = rr.broken or 'MEMALG-LAYOUT: cannot interpret %s: %s' % (f['pname'][:110], e)
+                continue
+            finally:
+                Machine.trivial_default = False
+            rr.instance('%s|%s' % (key, prog.uname), {'function': f['pname'][:140], 'contract': MEMALG_TEXT[kind], 'paths': paths, 'verdict': 'violated' if bad else 'as the standard algorithm'})
+            if bad and key not in seen:
+                seen.add(key)
+                msg, node, where, cons = bad
+                rr.add(Finding('MEMALG-LAYOUT', key, f['loc'], '%s%s: %s - on the path where %s.  Contract: %s'
+                               % (sn, (' in ' + ' > '.join(where)) if where else '', msg, ', '.join(cons) or 'no condition', MEMALG_TEXT[kind]),
                                where=f['pname'], unit=prog.uname))
     return rr
